@@ -71,6 +71,9 @@ type val struct {
 	key   int
 	c     *controller
 	plain bool // stored in a form that is not a Destructor (pval, *Host)
+	// returned by a failing constructor together with its error: the pool must neither store it nor hand
+	// it to anybody but the constructing caller nor destruct it
+	garbage bool
 }
 
 // pval is a pool value that is NOT a Destructor.
@@ -83,11 +86,7 @@ type probeWriter struct{ v *val }
 func (w *probeWriter) Write(p []byte) (int, error) { return len(p), nil }
 
 func (w *probeWriter) Close() error {
-	w.v.Destruct()
-	if w.v.id%3 == 0 {
-		return fmt.Errorf("close failed") // closeLogs only logs this
-	}
-	return nil
+	return w.v.Destruct() // an error (every third writer) is only logged by closeLogs
 }
 
 // probeOpener is a caddy.WriterOpener whose OpenWriter parks like a constructor.
@@ -115,6 +114,9 @@ func (v *val) Destruct() error {
 		return nil
 	}
 	t.park(msg{kind: mDtor, v: v})
+	if v.id%3 == 0 {
+		return fmt.Errorf("destructor failed") // Delete must pass it on: (true, err)
+	}
 	return nil
 }
 
@@ -159,18 +161,19 @@ type cmd struct {
 }
 
 type thread struct {
-	id     int
-	c      *controller
-	prog   []op
-	pc     int // index of the operation in progress / next to start
-	at     msgKind
-	atPt   int
-	atLock *sync.RWMutex
-	atVal  *val
-	inOp   bool // the current operation has started
-	resume chan cmd
-	lsVal  int  // LoadOrStore in progress: number of its value
-	lsObj  *val // … and the value object
+	id      int
+	c       *controller
+	prog    []op
+	pc      int // index of the operation in progress / next to start
+	at      msgKind
+	atPt    int
+	atLock  *sync.RWMutex
+	atVal   *val
+	inOp    bool // the current operation has started
+	resume  chan cmd
+	lsVal   int  // LoadOrStore in progress: number of its value
+	lsObj   *val // … and the value object
+	garbage *val // LoadOrNew in progress: the value its failing constructor returned with the error
 	// client mode
 	logging      *caddy.Logging
 	handler      *reverseproxy.Handler
@@ -219,6 +222,9 @@ const pointLoadOrStoreRetry = 7
 
 // pointDeleteEntry = caddy.VerifUPDeleteEntry
 const pointDeleteEntry = 8
+
+// garbageKey: the failing constructor of this key returns a value together with its error (Model.garbageKey)
+const garbageKey = 3
 
 var caseCounter atomic.Uint64
 
@@ -333,6 +339,11 @@ func (t *thread) exec(o op, k cmd) (r ret) {
 		x, loaded, err := c.up.LoadOrNew(o.key, func() (caddy.Destructor, error) {
 			t.park(msg{kind: mCtor})
 			if !o.ok {
+				if o.key == garbageKey {
+					// a value TOGETHER with the error (as Logging.openWriter's constructor does)
+					t.garbage = &val{id: -1, key: o.key, c: c, garbage: true}
+					return t.garbage, fmt.Errorf("constructor failed")
+				}
 				return nil, fmt.Errorf("constructor failed")
 			}
 			c.nextVal++
@@ -732,6 +743,11 @@ func (c *controller) turn(t *thread, holds holdsFn, oldest func(t int) (int, boo
 			res.tok = "Cf"
 		case m.kind == mRet && !r.loaded && r.err:
 			res.tok = "Fd"
+			if r.v != nil && r.v == t.garbage {
+				res.tok = "Fdg" // handed the value its own constructor returned with the error
+			} else if r.v != nil {
+				res.tok = "Fd?"
+			}
 		case m.kind == mRet && r.loaded:
 			res.tok = "W" + valStr(r.v) + "e" + bit(r.err)
 		default:
@@ -774,6 +790,9 @@ func (c *controller) turn(t *thread, holds holdsFn, oldest func(t int) (int, boo
 			res.tok = "E" + valStr(m.v)
 		case m.kind == mRet && r.deleted && prevAt == mDtor:
 			res.tok = "X" + valStr(prevVal)
+			if r.err {
+				res.tok += "e" // the destructor's error, passed on by Delete
+			}
 			res.dv = prevVal
 		case m.kind == mRet && r.deleted && prevAt == mYield:
 			res.tok = "En"
